@@ -401,6 +401,7 @@ func init() {
 		func() GridDriver { return NewAuthGrid(1) }, func() GridDriver { return NewAuthGrid(2) }, func() GridDriver { return NewAuthGrid(3) },
 		func() GridDriver { return NewAuthGrid(4) }, func() GridDriver { return NewAuthGrid(5) }, func() GridDriver { return NewAuthGrid(6) },
 		func() GridDriver { return NewAuthGrid(7) },
+		func() GridDriver { return NewAuthArgGrid(1) }, func() GridDriver { return NewAuthArgGrid(3) }, func() GridDriver { return NewAuthArgGrid(4) },
 	}, 25, 120, nil)
 	{
 		inner := Registry["C03"]
